@@ -566,3 +566,104 @@ def taint1(ctx):
                           'a length read from the WAL (%s) reaches %s without a dominating bounds check: damaged bytes can cause a panic or an unbounded allocation' % (label, method_name(s.name)))
     if n < 3:
         ctx.missing('sinks', 'expected >= 3 length-sized slices/allocations, found %d' % n)
+
+
+def expr_leaves(b, op, depth=0, seen=None):
+    """Leaves of the arithmetic expression tree feeding operand `op` (through copies, casts, binops and
+    checked-arithmetic tuples): [('place', point, place) | ('call', cs) | ('const', op) | ('param', l)]"""
+    if seen is None:
+        seen = set()
+    if depth > 20:
+        return []
+    if op['k'] == 'const':
+        return [('const', op)]
+    if op['k'] not in ('copy', 'move'):
+        return []
+    pl = op['place']
+    l = pl['l']
+    # `.0` of a checked-arithmetic tuple is transparent
+    inner = [e for e in pl['p'] if not (e['k'] == 'field' and e.get('adt') in (None, ''))]
+    if any(e['k'] == 'deref' for e in pl['p']):
+        return [('place', None, pl)]
+    if l in seen:
+        return []
+    seen.add(l)
+    ds = b.defs.get(l, [])
+    if not ds:
+        return [('param', l)]
+    out = []
+    for (p, kind, data) in ds:
+        if kind == 'call':
+            out.append(('call', data))
+        elif kind == 'assign':
+            rv = data['rv']
+            if rv['k'] in ('use', 'cast'):
+                o = rv['op']
+                if o['k'] in ('copy', 'move') and any(e['k'] == 'deref' for e in o['place']['p']):
+                    out.append(('place', p, o['place']))
+                else:
+                    out.extend(expr_leaves(b, o, depth + 1, seen))
+            elif rv['k'] == 'binop':
+                out.extend(expr_leaves(b, rv['a'], depth + 1, seen))
+                out.extend(expr_leaves(b, rv['b'], depth + 1, seen))
+            elif rv['k'] == 'unop':
+                out.extend(expr_leaves(b, rv['a'], depth + 1, seen))
+            else:
+                out.append(('other', p, rv))
+    return out
+
+
+@rule('TAINT2', ['C10', 'C08'], floor=1, template='guard-and-use-same-version')
+def taint2(ctx):
+    """The bounds check of a frame and the slicing of its payload read the same cursor value."""
+    n = 0
+    CUR = 'FrameReader.cursor'
+    for b in ctx.f.bodies.values():
+        if b.generic_dup() or not b.path.startswith('frame::reader::FrameReader'):
+            continue
+        stores = [p for (p, pl, rv) in b.stores if mem_loc(pl) == CUR]
+        # slicing calls whose range start is a read of the cursor
+        uses = []
+        for cs in b.calls:
+            if not re.search(INDEX_RE, cs.name) or len(cs.args) < 2:
+                continue
+            rl = op_local(cs.args[1])
+            for o in (b.trace_local(rl) if rl is not None else []):
+                if o[0] == 'rv' and o[2]['k'] == 'agg' and o[2].get('adt', '').endswith('ops::RangeFrom'):
+                    for lf in expr_leaves(b, o[2]['ops'][0]):
+                        if lf[0] == 'place' and mem_loc(lf[2]) == CUR and lf[1] is not None:
+                            uses.append((cs, lf[1]))
+        if not uses:
+            continue
+        # guards: comparisons against BLOCK_NUM_BYTES (or any bound) whose expression has a cursor leaf and a header-length leaf
+        guards = []
+        for bi, blk in enumerate(b.blocks):
+            if not b.live[bi]:
+                continue
+            for si, st in enumerate(blk['stmts']):
+                if st['k'] == 'assign' and st['rv']['k'] == 'binop' and st['rv']['op'] in ('Lt', 'Le', 'Gt', 'Ge'):
+                    lv = expr_leaves(b, st['rv']['a']) + expr_leaves(b, st['rv']['b'])
+                    cur_reads = [x[1] for x in lv if x[0] == 'place' and mem_loc(x[2]) == CUR and x[1] is not None]
+                    has_len = any(x[0] == 'call' and x[1].node is not None and is_getter(ctx.f.bodies[x[1].node]) and ctx.f.bodies[x[1].node].path.startswith('frame::header::Header::') for x in lv)
+                    if cur_reads and has_len:
+                        guards.append((b.pstart[bi] + si, cur_reads))
+        for (cs, p_use) in uses:
+            # only payload slices: those followed by a length-sized slice are covered by TAINT1; all cursor slices after a header was decoded count
+            if not any(g for g in guards):
+                continue
+            n += 1
+            ok = False
+            why = 'no bounds check reads the cursor'
+            for (gp, reads) in guards:
+                if not b.dominates(gp, cs.point):
+                    continue
+                for r in reads:
+                    between = [s for s in stores if s in b.reach_after(r) and p_use in b.reach([s]) and s != p_use]
+                    if not between:
+                        ok = True
+                    else:
+                        why = 'the cursor is modified (at %s) between the bounds check\'s read of it and the slicing' % b.loc(between[0])
+            ctx.check(ok, '%s:slice@cursor#%d' % (b.path, n), where(b, cs.point), 'bounds check and slice use the same cursor value',
+                      'the frame bounds check and the payload slicing do not see the same cursor: %s (a frame length within HEADER_LEN of the block end passes the check and panics in the slice)' % why)
+    if n == 0:
+        ctx.missing('cursor-slices', 'no cursor-based slicing guarded by a length check found in the frame reader')
